@@ -31,7 +31,7 @@ func (prop) ID() string { return "C09" }
 
 func nGen(tier string) int {
 	if tier == "thorough" {
-		return 4000
+		return 2000
 	}
 	return 400
 }
